@@ -8,6 +8,7 @@ import (
 	"os"
 	"path/filepath"
 	"sort"
+	"strings"
 	"time"
 
 	"github.com/goose-lang/goose/machine/filesys"
@@ -613,6 +614,65 @@ func C12(c *ev.Ctx) {
 	}
 	c.AddTraces(replayed)
 	c.Set("replayed_behaviours", replayed)
+
+	// ListExact at scale: directories with thousands of names (short and long ones), created, partly deleted, listed
+	for ti, tn := range []string{"mem/method", "dir/method"} {
+		t := openFsTarget(tn, c.Scratch, 80+ti)
+		bad := ""
+		func() {
+			defer func() {
+				if e := recover(); e != nil {
+					bad = fmt.Sprintf("panic: %v", e)
+				}
+			}()
+			for di, nfiles := range []int{2500, 5000, 400} {
+				d := fmt.Sprintf("big%d", di)
+				t.fs.Mkdir(d)
+				wantNames := map[string]bool{}
+				for k := 0; k < nfiles; k++ {
+					nm := fmt.Sprintf("f%05d", k)
+					if di == 2 {
+						nm = fmt.Sprintf("%s-%04d", strings.Repeat("longname", 29), k) // about 240 bytes each
+					}
+					f, ok := t.fs.Create(d, nm)
+					if !ok {
+						bad = "Create of a fresh name failed: " + nm
+						return
+					}
+					t.fs.Close(f)
+					wantNames[nm] = true
+				}
+				for k := 0; k < nfiles; k += 7 {
+					nm := fmt.Sprintf("f%05d", k)
+					if di == 2 {
+						nm = fmt.Sprintf("%s-%04d", strings.Repeat("longname", 29), k)
+					}
+					t.fs.Delete(d, nm)
+					delete(wantNames, nm)
+				}
+				got := t.fs.List(d)
+				seen := map[string]int{}
+				for _, g := range got {
+					seen[g]++
+				}
+				for g, k := range seen {
+					if !wantNames[g] || k != 1 {
+						bad = fmt.Sprintf("List(%s) returns %q %d times, which the directory holds %v", d, g, k, wantNames[g])
+						return
+					}
+				}
+				if len(seen) != len(wantNames) {
+					bad = fmt.Sprintf("List(%s) returns %d of the %d names in the directory", d, len(seen), len(wantNames))
+					return
+				}
+			}
+		}()
+		t.close()
+		if bad != "" {
+			c.Violation("fs."+tn[:3]+".list-large-directory", "target "+tn+", directory with thousands of entries (Filesys.tla ListExact: exactly the names of the directory): "+bad, nil)
+		}
+	}
+	c.Set("large_directories", "2500, 5000 and 400 (240-byte names) entries per target")
 
 	// code -> spec
 	nh := c.Pick(80, 1500)
